@@ -91,6 +91,19 @@ class Shapes:
         if isinstance(e, ast.IfExp):
             a, b = self.ends_crlf(e.body, fi, depth + 1, at), self.ends_crlf(e.orelse, fi, depth + 1, at)
             return _join([a[0], b[0]]), a[1] if a[0] != YES else b[1]
+        if isinstance(e, ast.Subscript) and isinstance(e.slice, ast.Constant) and isinstance(e.slice.value, int) and isinstance(strip_await(e.value), ast.Call):
+            # f(...)[i]  where f returns a tuple literal: shape of that element (the spelling `_, x = f(...)` without the name)
+            i = e.slice.value
+            cal = self.t.resolve_call(strip_await(e.value), self.t.local_env(fi))
+            rs = []
+            for c in cal:
+                for r in body_walk(c.node):
+                    if isinstance(r, ast.Return) and isinstance(r.value, ast.Tuple) and 0 <= i < len(r.value.elts):
+                        rs.append(self.ends_crlf(r.value.elts[i], c, depth + 1, r))
+                    elif isinstance(r, ast.Return) and r.value is not None:
+                        rs.append((TOP, f"{c.qual} returns something other than a tuple literal"))
+            if rs:
+                return _join(x[0] for x in rs), "; ".join(x[1] for x in rs if x[0] != YES) or "tuple element of callee ends with CRLF"
         return TOP, f"expression {norm(e, 40)}"
 
     def _defs(self, fi: FuncInfo, name: str, at: ast.AST | None):
